@@ -183,6 +183,18 @@ CHECKS = {
         "Columns are anchored to their definitions by C04/C05/C07; decay-sequential order is semantic and excluded.",
         "DESIGN.md section 4 / C06",
     ),
+    "C14": (
+        "exploration",
+        "E1",
+        "full product of builtin model combinations (kinetics x IRF x add-on x clp/full x datasets x coordinates x scale); "
+        "simulate at the generating parameters, objective/clp oracles at the truth, corner-perturbation recovery fits",
+        "Every model combination is simulated noise-free with label-specific clps and must be reproduced by the fitting "
+        "path at the generating parameters (objective <= 1e-9 |data|, clp = generating clp / scale); simulate() is checked "
+        "for idempotence, input preservation and seeded-noise reproducibility; identifiable models are refitted from the "
+        "truth and from every +-20% corner.",
+        "Recovery set fixed in the check; optimiser trajectories are SciPy's (watchdog on fits).",
+        "DESIGN.md section 4 / C14",
+    ),
 }
 
 PENDING_REASON = "check under construction in this round - not claimed until its check runs clean on the unchanged tree"
@@ -223,7 +235,7 @@ def main():
             "add_only": True,
         },
         "engines": [
-            {"name": "E1", "path": "vf/core.py", "serves_properties": ["C01", "C02", "C03", "C04", "C05", "C06", "C07", "C08", "C09", "C11", "C13"], "kind_free_text": "bounded exhaustive input-space enumeration with reference oracles, 16 workers"},
+            {"name": "E1", "path": "vf/core.py", "serves_properties": ["C01", "C02", "C03", "C04", "C05", "C06", "C07", "C08", "C09", "C11", "C13", "C14"], "kind_free_text": "bounded exhaustive input-space enumeration with reference oracles, 16 workers"},
             {"name": "E2", "path": "vf/explore.py", "serves_properties": ["C10", "C12", "C19"], "kind_free_text": "explicit-state BFS over event histories replayed on fresh real objects, full-state digests"},
             {"name": "E3", "path": "vf/checks/c15.py", "serves_properties": ["C15"], "kind_free_text": "deviation-bounded fault enumerator (all single / pairs of deviations from the fault-free environment), forked watchdog"},
             {"name": "E5", "path": "vf/prange.py", "serves_properties": ["C10"], "kind_free_text": "partial-order (conflict relation) exploration of numba prange kernels on py_func with recording array proxies"},
